@@ -121,6 +121,7 @@ def check (c):
             pts.append (('mid', x))
     classes = set ()
     refs = []
+    band_pts = []
     for kind, x in pts:
         kw = {} if pwr is None else dict (pwr = pwr)
         common.guarded (lambda: m.compute_near_field (list (x), [1.0, 1.0, 1.0], [1, 1, 1], **kw), 'compute_near_field')
@@ -136,7 +137,13 @@ def check (c):
         dE = np.linalg.norm (Ec - E) / np.linalg.norm (E)
         dH = np.linalg.norm (Hc - H) / np.linalg.norm (H)
         judge ('E.' + kind, dE, 0.01, 'E at %s (%.2f segments from the nearest conductor) deviates %.3g from the field of the solved currents' % (np.round (x, 4), nfref.min_distance (m, x), dE), key = 'near-E')
-        judge ('H.' + kind, dH, 0.01, 'H at %s (%.2f segments from the nearest conductor) deviates %.3g from the field of the solved currents' % (np.round (x, 4), nfref.min_distance (m, x), dH), key = 'near-H')
+        dist = nfref.min_distance (m, x)
+        # between 1 and 1.5 segment lengths the magnetic field misses the 1 % by a hair in rare cases (known finding,
+        # see known_findings.json); anything larger or farther out is a violation of its own
+        hkey = 'near-H-band-1-to-1.5-segments' if (dist < 1.5 and 0.01 < dH <= 0.013) else 'near-H'
+        if hkey != 'near-H':
+            band_pts.append (tuple (np.round (x, 9)))
+        judge ('H.' + kind, dH, 0.01, 'H at %s (%.2f segments from the nearest conductor) deviates %.3g from the field of the solved currents' % (np.round (x, 4), dist, dH), key = hkey)
     # ---- far shells: the near field converges to the reported far field (deviation ~ 1 / r)
     size = max (np.linalg.norm (np.asarray (p.point, float)) for p in m.pulses) / lam
     if size <= 0.75:
@@ -203,7 +210,8 @@ def check (c):
         common.guarded (lambda: m.compute_near_field (list (x), [1.0, 1.0, 1.0], [1, 1, 1], **kw), 'compute_near_field')
         Ec, Hc = np.asarray (m.e_field [0]), np.asarray (m.h_field [0])
         judge ('E.repeat', np.linalg.norm (Ec - E) / np.linalg.norm (E), 0.01, 'E at %s, asked again after a request with another power level, deviates from the field of the solved currents' % (np.round (x, 4),), key = 'near-E')
-        judge ('H.repeat', np.linalg.norm (Hc - H) / np.linalg.norm (H), 0.01, 'H at %s, asked again after a request with another power level, deviates from the field of the solved currents' % (np.round (x, 4),), key = 'near-H')
+        judge ('H.repeat', np.linalg.norm (Hc - H) / np.linalg.norm (H), 0.01, 'H at %s, asked again after a request with another power level, deviates from the field of the solved currents' % (np.round (x, 4),)
+              , key = 'near-H-band-1-to-1.5-segments' if tuple (np.round (x, 9)) in band_pts and np.linalg.norm (Hc - H) / np.linalg.norm (H) <= 0.013 else 'near-H')
     if not any (k.startswith ('E.') for k in mon):
         return dict (status = 'inconclusive', reason = 'no admissible observation point / quadrature self-check failed')
     sig = gen.signature (spec, m, extra = ['+'.join (sorted (classes)), 'pwr%d' % (pwr is not None)])
